@@ -191,6 +191,17 @@ def replay_fit(vals, label):
     r3 = L3.fit(np.array([th[1]]), np.array([0.1]), np.array([1.5]))
     if np.max(np.abs(np.asarray(r3) - np.array([th[1]]))) > 1e-3:
         bad["noisefree_returns_start[target_param=gamma]"] = list(map(float, r3))
+    # as many observation times as observed states (a square observation matrix) and several states at several times
+    for names, tt in ((["J", "R"], np.array([1.5, 3.0])), (["R", "S", "J"], np.array([1.0, 2.0, 4.0])), (["S", "J"], t)):
+        m.parameters = th
+        m.initial_values = (x0, 0.0)
+        sol = m.integrate(tt)[1:, :]
+        yy = np.column_stack([sol[:, ["S", "J", "R"].index(nm)] for nm in names])
+        Lq = SquareLoss(th, m, x0, 0.0, tt, yy, names)
+        rq = Lq.fit(np.array(th), lb, ub)
+        if np.max(np.abs(np.asarray(rq) - np.array(th))) > 1e-4:
+            bad["noisefree_returns_start[states=%s at %d times]" % ("+".join(names), len(tt))] = list(map(float, rq))
+    m.parameters = th
     # one float64 array of initial values shared by two loss objects; an initial-value evaluation on the second one
     # (target_state given) must not move the first one's landscape
     x0a = np.array(x0, dtype=np.float64)
